@@ -371,6 +371,10 @@ def _replay_script(self, path):
         if l.startswith("expect-last "):
             if not lines or l[len("expect-last "):].strip() not in lines[-1]:
                 bad = True
+        if l.startswith("observed-last "):
+            # the violating line as first observed: the violation persists while the library still answers the same
+            if lines and l[len("observed-last "):].strip() == lines[-1].strip():
+                bad = True
     if rc != 0:
         sys.stdout.write(err[-3000:])
     if bad:
